@@ -322,8 +322,21 @@ func findOrCreateMatchFileIfOverlaps(order *list.List, e1, e2 *HostsMapEntry) {
 		if el1 == nil {
 			el1 = findOrCreateMatchFile(order, e1)
 		}
-		e2._upper = el1
+		// e2 should be placed after all the entries it overlaps with,
+		// so the mark only moves forward.
+		if e2._upper == nil || isAfter(el1, e2._upper) {
+			e2._upper = el1
+		}
 	}
+}
+
+func isAfter(element, mark *list.Element) bool {
+	for e := mark.Next(); e != nil; e = e.Next() {
+		if e == element {
+			return true
+		}
+	}
+	return false
 }
 
 func findOrCreateMatchFile(order *list.List, e1 *HostsMapEntry) *list.Element {
